@@ -90,9 +90,6 @@ Qed.
 Lemma wait_eq st : beval (tenv tcp st) (t_wait tcp) = (h_len (t_hdr st) >=? 2).
 Proof. change (beval (tenv tcp st) (t_wait tcp)) with (z2b (b2z (h_len (t_hdr st) >=? 2))). apply z2b_b2z. Qed.
 
-Lemma errguard_eq st : beval (tenv tcp st) (t_errguard tcp) = (h_len (t_hdr st) <? 2).
-Proof. change (beval (tenv tcp st) (t_errguard tcp)) with (z2b (b2z (h_len (t_hdr st) <? 2))). apply z2b_b2z. Qed.
-
 Lemma errfc_eq fc : beval (env_of [("result.function_code"%string, fc)]) (t_errfc tcp) = (fc <? 128).
 Proof. change (beval (env_of [("result.function_code"%string, fc)]) (t_errfc tcp)) with (z2b (b2z (fc <? 128))). apply z2b_b2z. Qed.
 
@@ -252,13 +249,37 @@ Qed.
 Lemma loop_empty n h : loop (S n) units single {| t_buf := []; t_hdr := h |} = ({| t_buf := []; t_hdr := h |}, [], Done).
 Proof. reflexivity. Qed.
 
-(* T2: at least 8 bytes of a good frame, but not all of it: wait *)
+(* T1': a well-formed frame for a unit that is not served is skipped (advanceFrame), whatever its PDU *)
+Lemma loop_foreign n f rest h :
+  tcp_wf f -> validate_unit base units single (Some (f_uid f)) = Ok false ->
+  loop (S n) units single {| t_buf := spec_adu KTcp f ++ rest; t_hdr := h |} =
+  loop n units single {| t_buf := rest; t_hdr := hdr0 |}.
+Proof.
+  intros (Ht & Hp & Hu & Hl1 & Hl2) Hval.
+  cbn [t_loop]. rewrite ready_eq. cbn [t_buf].
+  pose proof (adu_tcp_length f) as HL. cbn [spec_adu] in *.
+  rewrite app_length, HL. replace (Z.of_nat (7 + length (f_pdu f) + length rest) >? 7) with true by lia.
+  rewrite check_ready by (cbn [t_buf]; rewrite app_length, HL; lia).
+  cbn [t_buf]. rewrite spec_adu_tcp_mbap, <- app_assoc.
+  rewrite parts_firstn by apply mbap_length.
+  rewrite hdr_of_mbap by lia. cbn [h_len].
+  replace (Z.of_nat (length (f_pdu f)) + 1 <? 2) with false by lia.
+  rewrite !app_length, mbap_length.
+  replace (Z.of_nat (7 + (length (f_pdu f) + length rest)) - 7 + 1 >=? Z.of_nat (length (f_pdu f)) + 1) with true by lia.
+  cbn [t_hdr h_uid]. rewrite Hval.
+  rewrite advance_eq. cbn [t_buf t_hdr h_len]. rewrite pyfrom_nonneg by lia.
+  replace (Z.to_nat (7 + (Z.of_nat (length (f_pdu f)) + 1) - 1)) with (7 + length (f_pdu f))%nat by lia.
+  rewrite parts_rest by apply mbap_length. reflexivity.
+Qed.
+
+(* T2: a proper prefix of a well-formed frame (ANY length, also 1..7 bytes): wait, buffer kept *)
 Lemma loop_partial n f p q h :
-  tcp_wf f -> spec_adu KTcp f = p ++ q -> q <> [] -> (8 <= length p)%nat ->
+  tcp_wf f -> spec_adu KTcp f = p ++ q -> q <> [] ->
   exists h', loop (S n) units single {| t_buf := p; t_hdr := h |} = ({| t_buf := p; t_hdr := h' |}, [], Done).
 Proof.
-  intros (Ht & Hp & Hu & Hl1 & Hl2) Hsplit Hq H8.
-  cbn [t_loop]. rewrite ready_eq. cbn [t_buf]. replace (Z.of_nat (length p) >? 7) with true by lia.
+  intros (Ht & Hp & Hu & Hl1 & Hl2) Hsplit Hq.
+  cbn [t_loop]. rewrite ready_eq. cbn [t_buf].
+  destruct (Z.of_nat (length p) >? 7) eqn:H8; [|eexists; reflexivity].
   rewrite check_ready by (cbn [t_buf]; lia). cbn [t_buf].
   assert (Hf7 : firstn 7 p = mbap (f_tid f) (f_pid f) (Z.of_nat (length (f_pdu f)) + 1) (f_uid f)).
   { cbn [spec_adu] in Hsplit. rewrite spec_adu_tcp_mbap in Hsplit.
@@ -276,36 +297,47 @@ Qed.
 
 End Loop.
 
-(* ---- whole streams in one buffer ---- *)
+(* ---- whole streams in one buffer: any mix of served and foreign frames ---- *)
+Definition acc (units : list Z) (single : bool) (u : Z) : bool :=
+  single || zmem 0 units || zmem 255 units || zmem u units.
+
 Section Batch.
 Variable dec : bytes -> dres.
 Variable units : list Z.
 Variable single : bool.
 Notation loop := (t_loop base tcp dec).
-Notation good := (tcp_good dec units single).
 Notation tstream := (stream frame (spec_adu KTcp)).
 
+Definition tcp_sf (f : frame) : Prop :=
+  tcp_wf f /\ (acc units single (f_uid f) = true -> is_msg (dec (f_pdu f)) = true).
+Definition tcp_dls (f : frame) : list delivery :=
+  if acc units single (f_uid f) then [spec_delivery KTcp f] else [].
+
 Lemma loop_stream : forall fs n p h rest,
-  Forall good fs -> Forall good rest -> (length fs <= n)%nat ->
-  partial frame (spec_adu KTcp) p rest -> (p <> [] -> (8 <= length p)%nat) ->
+  Forall tcp_sf fs -> Forall tcp_sf rest -> (length fs <= n)%nat ->
+  partial frame (spec_adu KTcp) p rest ->
   exists h', loop (S n) units single {| t_buf := tstream fs ++ p; t_hdr := h |} =
-             ({| t_buf := p; t_hdr := h' |}, map (spec_delivery KTcp) fs, Done).
+             ({| t_buf := p; t_hdr := h' |}, flat_map tcp_dls fs, Done).
 Proof.
-  induction fs as [|f fs IH]; intros n p h rest Hg Hr Hn Hpart Hok.
-  - cbn [stream map concat app]. destruct Hpart as [->|(f & rest' & q & -> & Hadu & Hq & Hp)].
+  induction fs as [|f fs IH]; intros n p h rest Hg Hr Hn Hpart.
+  - cbn [stream map concat app flat_map]. destruct Hpart as [->|(f & rest' & q & -> & Hadu & Hq & Hp)].
     + eexists. apply loop_empty.
     + apply Forall_inv in Hr. destruct Hr as (Hwf & _).
-      destruct (loop_partial dec units single n f p q h Hwf Hadu Hq (Hok Hp)) as (h' & E).
+      destruct (loop_partial dec units single n f p q h Hwf Hadu Hq) as (h' & E).
       exists h'. exact E.
   - change (tstream (f :: fs)) with (spec_adu KTcp f ++ tstream fs). rewrite <- app_assoc.
     destruct n as [|n]; [cbn in Hn; lia|].
-    rewrite loop_frame by (now apply Forall_inv in Hg).
-    apply Forall_inv_tail in Hg.
-    destruct (IH n p hdr0 rest Hg Hr ltac:(cbn in Hn; lia) Hpart Hok) as (h' & E).
-    exists h'. rewrite E. reflexivity.
+    pose proof (Forall_inv Hg) as (Hwf & Hdec). apply Forall_inv_tail in Hg.
+    destruct (IH n p hdr0 rest Hg Hr ltac:(cbn in Hn; lia) Hpart) as (h' & E).
+    exists h'. cbn [flat_map]. unfold tcp_dls at 1.
+    destruct (acc units single (f_uid f)) eqn:Ea.
+    + rewrite loop_frame by (split; [exact Hwf|split; [apply Hdec; reflexivity|rewrite validate_spec; f_equal; exact Ea]]).
+      rewrite E. reflexivity.
+    + rewrite loop_foreign by (try exact Hwf; rewrite validate_spec; f_equal; exact Ea).
+      rewrite E. reflexivity.
 Qed.
 
-Lemma stream_length_ge fs : Forall good fs -> (length fs <= length (tstream fs))%nat.
+Lemma stream_length_ge fs : Forall tcp_sf fs -> (length fs <= length (tstream fs))%nat.
 Proof.
   induction fs as [|f fs IH]; intros Hg; [cbn; lia|].
   change (tstream (f :: fs)) with (spec_adu KTcp f ++ tstream fs).
@@ -317,6 +349,9 @@ End Batch.
 Lemma tcp_adu_ne f : spec_adu KTcp f <> [].
 Proof. intros H. apply (f_equal (@length N)) in H. rewrite adu_tcp_length in H. cbn in H. lia. Qed.
 
+Lemma acc_spec c u : acc (c_units c) (single_of (t_single_default tcp) c) u = spec_accepts KTcp c u.
+Proof. reflexivity. Qed.
+
 Lemma valid_good dec c f :
   valid_frame KTcp dec c f -> tcp_good dec (c_units c) (single_of (t_single_default tcp) c) f.
 Proof.
@@ -324,38 +359,50 @@ Proof.
   rewrite validate_spec. f_equal. exact Hacc.
 Qed.
 
-Lemma tcp_batch dec c : forall s ch fs p rest,
-  True -> Forall (valid_frame KTcp dec c) fs -> Forall (valid_frame KTcp dec c) rest ->
-  t_buf s ++ ch = stream frame (spec_adu KTcp) fs ++ p -> partial frame (spec_adu KTcp) p rest ->
-  (p <> [] -> (8 <= length p)%nat) -> (t_buf s <> [] -> (8 <= length (t_buf s))%nat) ->
-  exists s', t_recv base tcp dec c s ch = (s', map (spec_delivery KTcp) fs, Done) /\ t_buf s' = p /\ True.
+Lemma stream_sf dec c f :
+  stream_frame KTcp dec c f -> tcp_sf dec (c_units c) (single_of (t_single_default tcp) c) f.
+Proof. intros (Hwf & Hd). split; [exact Hwf|]. rewrite acc_spec. exact Hd. Qed.
+
+Lemma dls_ref c fs :
+  flat_map (tcp_dls (c_units c) (single_of (t_single_default tcp) c)) fs = ref_deliveries KTcp c fs.
 Proof.
-  intros s ch fs p rest _ Hfs Hrest Heq Hpart Hok _.
+  unfold ref_deliveries. induction fs as [|f fs IH]; [reflexivity|].
+  cbn [flat_map filter]. unfold tcp_dls at 1. rewrite acc_spec.
+  destruct (spec_accepts KTcp c (f_uid f)); cbn [app map]; now rewrite IH.
+Qed.
+
+Lemma tcp_batch dec c : forall s ch fs p rest,
+  True -> Forall (stream_frame KTcp dec c) fs -> Forall (stream_frame KTcp dec c) rest ->
+  t_buf s ++ ch = stream frame (spec_adu KTcp) fs ++ p -> partial frame (spec_adu KTcp) p rest ->
+  (p <> [] -> True) -> (t_buf s <> [] -> True) ->
+  exists s', t_recv base tcp dec c s ch =
+             (s', flat_map (tcp_dls (c_units c) (single_of (t_single_default tcp) c)) fs, Done) /\ t_buf s' = p /\ True.
+Proof.
+  intros s ch fs p rest _ Hfs Hrest Heq Hpart _ _.
   unfold t_recv. cbn [t_buf t_hdr]. rewrite Heq.
-  assert (Hg : Forall (tcp_good dec (c_units c) (single_of (t_single_default tcp) c)) fs).
-  { eapply Forall_impl; [|exact Hfs]. intros f. apply valid_good. }
-  assert (Hg' : Forall (tcp_good dec (c_units c) (single_of (t_single_default tcp) c)) rest).
-  { eapply Forall_impl; [|exact Hrest]. intros f. apply valid_good. }
+  assert (Hg : Forall (tcp_sf dec (c_units c) (single_of (t_single_default tcp) c)) fs).
+  { eapply Forall_impl; [|exact Hfs]. intros f. apply stream_sf. }
+  assert (Hg' : Forall (tcp_sf dec (c_units c) (single_of (t_single_default tcp) c)) rest).
+  { eapply Forall_impl; [|exact Hrest]. intros f. apply stream_sf. }
   destruct (loop_stream dec (c_units c) (single_of (t_single_default tcp) c) fs
               (length (stream frame (spec_adu KTcp) fs ++ p)) p (t_hdr s) rest Hg Hg') as (h' & E).
   - rewrite app_length. pose proof (stream_length_ge dec _ _ fs Hg). lia.
   - exact Hpart.
-  - exact Hok.
   - eexists. split; [exact E|]. split; reflexivity.
 Qed.
 
-(* C06, TCP: chunking independence wherever no read leaves 1..7 bytes of a frame buffered *)
+(* C06, TCP: FULL chunking independence — every division of every stream of served and foreign
+   frames delivers exactly the frames of the accepted units, in order, and nothing is raised *)
 Theorem tcp_chunking dec c frames chunks :
-  Forall (valid_frame KTcp dec c) frames ->
+  Forall (stream_frame KTcp dec c) frames ->
   concat chunks = concat (map (spec_adu KTcp) frames) ->
-  (forall cs1 cs2 k, chunks = cs1 ++ cs2 ->
-     cut_inside (map (spec_adu KTcp) frames) (length (concat cs1)) k -> (8 <= k)%nat) ->
-  exists s', feed (t_recv base tcp dec c) (t_init tcp) chunks = (s', map (spec_delivery KTcp) frames, true).
+  exists s', feed (t_recv base tcp dec c) (t_init tcp) chunks = (s', ref_deliveries KTcp c frames, true).
 Proof.
-  intros Hv Hcat Hcuts.
+  intros Hv Hcat. rewrite <- (dls_ref c).
   apply (feed_stream frame (spec_adu KTcp) tcp_adu_ne tstate (t_recv base tcp dec c) t_buf (fun _ => True)
-           (spec_delivery KTcp) (valid_frame KTcp dec c) (fun k => (8 <= k)%nat) (tcp_batch dec c)
-           frames chunks (t_init tcp) I eq_refl Hv Hcat Hcuts).
+           (tcp_dls (c_units c) (single_of (t_single_default tcp) c)) (stream_frame KTcp dec c) (fun _ => True)
+           (tcp_batch dec c) frames chunks (t_init tcp) I eq_refl Hv Hcat).
+  intros; exact I.
 Qed.
 
 (* C03, TCP: the whole frame given to a fresh receiver *)
@@ -399,7 +446,7 @@ Proof.
   unfold in_range. cbn [fsigned fwidth]. change (pow256 2) with 65536. lia.
 Qed.
 
-(* the open defect: a read that ends 7 bytes into a frame *)
+(* the former defect (a read that ends 7 bytes into a frame): the old refutation witness now passes *)
 Definition tcp_refute_dec (pdu : bytes) : dres :=
   match pdu with
   | [3%N; 0%N; 0%N; 0%N; 1%N] => DMsg 3
@@ -410,14 +457,10 @@ Definition tcp_refute_cfg : cfg := {| c_units := [1]; c_single := Some false |}.
 Definition tcp_refute_frame : frame := {| f_tid := 1; f_pid := 0; f_uid := 1; f_pdu := [3%N; 0%N; 0%N; 0%N; 1%N] |}.
 Definition tcp_refute_chunks : list bytes := [[0%N; 1%N; 0%N; 0%N; 0%N; 6%N; 1%N]; [3%N; 0%N; 0%N; 0%N; 1%N]].
 
-Lemma tcp_refuted :
-  valid_frame KTcp tcp_refute_dec tcp_refute_cfg tcp_refute_frame /\
-  concat tcp_refute_chunks = spec_adu KTcp tcp_refute_frame /\
-  snd (feed (t_recv base tcp tcp_refute_dec tcp_refute_cfg) (t_init tcp) tcp_refute_chunks) = false.
-Proof.
-  split; [|split; vm_compute; reflexivity].
-  repeat split; try (vm_compute; congruence); cbn; lia.
-Qed.
+Lemma tcp_old_witness_passes :
+  feed (t_recv base tcp tcp_refute_dec tcp_refute_cfg) (t_init tcp) tcp_refute_chunks =
+  (t_init tcp, [spec_delivery KTcp tcp_refute_frame], true).
+Proof. vm_compute. reflexivity. Qed.
 
 Lemma skipn_add {A} a b (l : list A) : skipn (a + b) l = skipn b (skipn a l).
 Proof.
@@ -464,13 +507,3 @@ Proof.
     rewrite skipn_add, firstn_skipn, firstn_skipn. reflexivity.
 Qed.
 
-(* the error path: what the open defect delivers is the raw 1..7-byte buffer, not a frame *)
-Lemma tcp_errpath_refuted :
-  exists dec c chunk d,
-    t_recv base tcp dec c (t_init tcp) chunk = ({| t_buf := [1%N]; t_hdr := hdr0 |}, [d], Done) /\
-    (length chunk < 8)%nat /\ d_pdu d = chunk /\ justified_tcp chunk d = false.
-Proof.
-  exists (fun _ => DMsg 128), {| c_units := [1]; c_single := Some false |},
-         [128%N; 1%N; 0%N; 0%N; 0%N; 6%N; 1%N].
-  eexists. vm_compute. repeat split; reflexivity.
-Qed.
